@@ -530,6 +530,95 @@ try:
                     cs.append(cnt == sum([z3.If(mt, z3.BitVecVal(1, 64), z3.BitVecVal(0, 64)) for mt in matches], z3.BitVecVal(0, 64)))
                     cs.append(cnt == z3.BitVecVal(n_writes, 64))
                 ck.require(ex, 'U2_all_matching_rows_locked_before_any_change', r.pc, None, z3.And(cs) if cs else z3.BoolVal(True), wit, lambda m, w: 'row-changed-before-all-locked')
+    # ---------------- U3: the same two statements on a table with one indexed column: the index follows every changed row
+    # get_table_indexes / get_table_btree_indexes yield ["c"] or nothing (three combinations), every row holds a symbolic value under
+    # "c", the update sets "c" to a symbolic new value, Row::get_with_id is a stub answering from the row's values.
+    ck.declare('U3_indexes_follow_every_changed_row', 'tx_update / tx_delete on 1..2 rows with column c indexed by a hash index, an ordered index or both; values symbolic',
+               'for every matching row and every index kind on c: update => remove(old value, row) and add(new value, row); delete => remove(old value, row); the undo record lists the same changes; no index call for a row that does not match')
+
+    def _u3_get_with_id(c):
+        row, col = _deref(c.st, c.args[0]), _deref(c.st, c.args[1])
+        for kv in row.fields[P.field('Row', 'values')].items(c.st):
+            if getattr(kv.fields[0], 'text', None) == getattr(col, 'text', '?'):
+                return some(kv.fields[1], 'Option<Value>')
+        return none('Option<Value>')
+
+    def _u3_to_row(c):
+        rid = c.args[1]
+        rv = rid.v if isinstance(rid, Int) else rid.fields[0].v
+        ks = [k for k in range(c.st.env['nrows']) if z3.is_true(z3.simplify(rv == z3.BitVec(f'srow{k}', 64)))]
+        if len(ks) != 1:
+            raise Unsupported('slab_row_to_engine_row on an unknown slab row')
+        return Struct('Row', {P.field('Row', 'id'): Int(z3.BitVec(f'rowid{ks[0]}', 64), False),
+                              P.field('Row', 'values'): Seq('(String, Value)', [Struct('(String, Value)', {0: Str(text='c'), 1: c.st.env['olds'][ks[0]]})])})
+
+    def idx_rec(kind):
+        # arguments are captured by value at call time: `&old_value` points into a local that the next row overwrites
+        def f(c):
+            c.st.notes.append((kind, tuple(_deref(c.st, a) if isinstance(a, Ptr) else a for a in c.args[1:])))
+            return _ok_(UNIT, 'Result<(), RelationalError>')
+        return f
+    ex.extra_models.update({'RelationalEngine::slab_row_to_engine_row': _u3_to_row, 'Row::get_with_id': _u3_get_with_id,
+                            'RelationalEngine::index_remove': idx_rec('index_remove'), 'RelationalEngine::index_add': idx_rec('index_add'),
+                            'RelationalEngine::btree_index_remove': idx_rec('btree_remove'), 'RelationalEngine::btree_index_add': idx_rec('btree_add')})
+    u3_seen = 0
+    for fn_ in ('tx_update', 'tx_delete'):
+        for nrows in (1, 2):
+            for hash_i, btree_i in ((True, False), (False, True), (True, True)):
+                st = ex.new_state()
+                st.env['nrows'] = nrows
+                _vint = lambda nm: Enum('Value', P.variant_index('Value', 'Int'), {('Int', 0): Int(z3.BitVec(nm, 64), True)}, variant='Int')
+                st.env['olds'] = [_vint(f'old{k}') for k in range(nrows)]
+                newv = _vint('newval')
+                rowids = [z3.BitVec(f'rowid{k}', 64) for k in range(nrows)]
+                if nrows > 1:
+                    st.assume(z3.Distinct(*rowids))
+                ex.extra_models['RelationalEngine::get_table_indexes'] = lambda c, h=hash_i: Seq('std::string::String', [Str(text='c')] if h else [])
+                ex.extra_models['RelationalEngine::get_table_btree_indexes'] = lambda c, b=btree_i: Seq('std::string::String', [Str(text='c')] if b else [])
+                tbl = Str(z3.BitVec('table', 64))
+                args = [ref(Struct('RelationalEngine', {}, lazy='ENG')), Int(z3.BitVec('tx', 64), False), tbl, st.fresh('Condition', 'cond')]
+                if fn_ == 'tx_update':
+                    ex.extra_models['RelationalEngine::get_schema'] = lambda c: _ok_(Struct('Schema', {}, lazy='SCHEMA'), 'Result<Schema, RelationalError>')
+                    ex.extra_models['Schema::get_column'] = lambda c: some(ref(Struct('Column', {P.field('Column', 'nullable'): z3.BoolVal(True)}, lazy='COL')), 'Option<&Column>')
+                    ex.extra_models['Value::matches_type'] = lambda c: z3.BoolVal(True)
+                    ex.extra_models['<&Value as Into<ColumnValue>>::into'] = lambda c: c.st.fresh('ColumnValue', c.st.fresh_name('slabval'))
+                    args.append(Map('std::string::String', 'Value', [Str(text='c')], [newv]))
+                st.frames = []
+                ex.call(st, 'RelationalEngine::' + fn_, args)
+                res = ex.run(st)
+                ck.note_path_problem(res, f'{fn_} rows={nrows} hash={hash_i} btree={btree_i}')
+                for r in res:
+                    if r.status != 'return' or r.retval.variant != 'Ok':
+                        continue
+                    u3_seen += 1
+                    calls = [x for x in r.st.notes if x[0] in ('index_remove', 'index_add', 'btree_remove', 'btree_add')]
+                    wit = lambda m, fn_=fn_, nrows=nrows, hash_i=hash_i, btree_i=btree_i, calls=calls: {'statement': fn_, 'rows': nrows, 'hash_index': hash_i, 'btree_index': btree_i, 'index_calls': [c_[0] for c_ in calls]}
+                    matches = [z3.Bool('matches[' + str(rid) + ']') for rid in rowids]
+                    cs = []
+
+                    def called(kind, val, rid):
+                        alts = []
+                        for (k_, a_) in calls:
+                            if k_ != kind or len(a_) != 4:
+                                continue
+                            v_ = _deref(r.st, a_[2]) if isinstance(a_[2], Ptr) else a_[2]
+                            same_v = z3.BoolVal(True) if v_ is val else (v_.fields[('Int', 0)].v == val.fields[('Int', 0)].v if isinstance(v_, Enum) and v_.variant == 'Int' else z3.BoolVal(False))
+                            alts.append(z3.And(same_v, a_[3].v == rid))
+                        return z3.Or(alts) if alts else z3.BoolVal(False)
+                    n_expected = []
+                    for k in range(nrows):
+                        old = st.env['olds'][k]
+                        want = []
+                        if hash_i:
+                            want += [('index_remove', old)] + ([('index_add', newv)] if fn_ == 'tx_update' else [])
+                        if btree_i:
+                            want += [('btree_remove', old)] + ([('btree_add', newv)] if fn_ == 'tx_update' else [])
+                        cs += [z3.Implies(matches[k], called(kind, val, rowids[k])) for kind, val in want]
+                        n_expected.append(z3.If(matches[k], z3.BitVecVal(len(want), 64), z3.BitVecVal(0, 64)))
+                    cs.append(z3.BitVecVal(len(calls), 64) == sum(n_expected, z3.BitVecVal(0, 64)))
+                    ck.require(ex, 'U3_indexes_follow_every_changed_row', r.pc, None, z3.And(cs), wit, lambda m, w: 'index-not-maintained')
+    if u3_seen == 0:
+        ck.inconclusive.append('U3 vacuous: no statement succeeded')
 finally:
     ex.extra_models.clear()
     ex.extra_models.update(u2_saved)
@@ -539,6 +628,11 @@ ck.functions += ['RelationalEngine::tx_update', 'RelationalEngine::tx_delete']
 
 for v in ck.violations:
     w = v['witness']
+    if 'index_calls' in w:
+        rep = Replay.call({'op': 'relational_index_follow', 'statement': w['statement'], 'hash_index': w['hash_index'], 'btree_index': w['btree_index']})
+        v['native'] = rep
+        v['replayed'] = rep.get('violates')
+        continue
     if 'statement' in w:
         rep = Replay.call({'op': 'relational_tx_refused', 'statement': w['statement']})
         v['native'] = rep
